@@ -4,10 +4,10 @@ package main
 
 import (
 	"crypto/sha1"
-	"regexp"
 	"fmt"
 	"go/types"
 	"math/big"
+	"regexp"
 	"sort"
 	"strings"
 
@@ -15,16 +15,16 @@ import (
 )
 
 type Engine struct {
-	prog     *ssa.Program
-	pkgs     map[string]*ssa.Package // by path
-	cs       *ContractSet
-	reg      *Registry
-	modPath  string // module path of the repository under verification
-	tags     map[string]int
-	tagTypes []types.Type
-	counter  map[string]int
-	allNamed []*types.Named // named types of repository packages (for closed-world interface reasoning)
-	warnings map[string]bool
+	prog      *ssa.Program
+	pkgs      map[string]*ssa.Package // by path
+	cs        *ContractSet
+	reg       *Registry
+	modPath   string // module path of the repository under verification
+	tags      map[string]int
+	tagTypes  []types.Type
+	counter   map[string]int
+	allNamed  []*types.Named // named types of repository packages (for closed-world interface reasoning)
+	warnings  map[string]bool
 	implCache map[string][]types.Type
 	workDir   string
 	feasN     int
